@@ -67,6 +67,27 @@ func finite(x float64) bool { return !math.IsNaN(x) && !math.IsInf(x, 0) }
 
 var virtualName = regexp.MustCompile(`^V[0-9]+$`)
 
+// ---------- C01 ----------
+
+// Layout returned (layoutThen reports panics); all it returned must be finite numbers
+func oracleC01(c Case, out graph.Layout) []string {
+	var v []string
+	for _, n := range out.Nodes {
+		if !finite(n.X) || !finite(n.Y) || !finite(n.W) || !finite(n.H) {
+			v = append(v, fmt.Sprintf("node %q has a non-finite coordinate: %+v", n.ID, n.Size))
+		}
+	}
+	for i, e := range out.Edges {
+		for _, p := range e.Points {
+			if !finite(p[0]) || !finite(p[1]) {
+				v = append(v, fmt.Sprintf("edge #%d has a non-finite route point %v", i, p))
+				break
+			}
+		}
+	}
+	return v
+}
+
 // ---------- C02 ----------
 
 func oracleC02(c Case, out graph.Layout) []string {
